@@ -324,6 +324,10 @@ class Analysis:
                         k = self.track_key(n)
                         if k is not None:
                             init[k] = want.pop(pth)
+                            if getattr(self, "persistent", False):
+                                if not hasattr(self, "pinned"):
+                                    self.pinned = {}
+                                self.pinned[k] = init[k]
             self.extra_missing = sorted(want)
         self.caps = {}
         self.IN = self._forward(init)
@@ -774,6 +778,10 @@ class Analysis:
             key = self.track_key(i, st) if k == "idx" else self.track_key(i)
             if key is not None and key in st:
                 return meet(st[key], tr) if tr != (None, None) else st[key]
+            if key is not None and key in getattr(self, "pinned", ()):
+                # an input the analysed function cannot modify (abstract input region, `persistent`)
+                pv = self.pinned[key]
+                return meet(pv, tr) if tr != (None, None) else pv
             r = self.ctx.load_range(self, f, i, st)
             if r is not None:
                 return meet(r, tr)
@@ -805,6 +813,10 @@ class Analysis:
                     r = _cmp_const(op, a, b)
                     if r is not None:
                         return (r, r)
+                else:
+                    t_ = self._truth(st, i)
+                    if t_ is not None:
+                        return (1, 1) if t_ else (0, 0)
                 return (0, 1)
             a = self.eval(st, a_id, depth + 1)
             b = self.eval(st, b_id, depth + 1)
@@ -1457,6 +1469,10 @@ class Analysis:
             if bool(e["v"]) != truth:
                 return None
             return st
+        if k == "bin" and e["op"] in ("&&", "||") and not self._has_post_side_effect(j):
+            t0 = self._truth(st, j)
+            if t0 is not None and t0 != truth:
+                return None
         if record and not self._has_post_side_effect(j):
             st = dict(st)
             st[("fact", j, "T" if truth else "F")] = True
@@ -1518,10 +1534,47 @@ class Analysis:
                 return True
         return False
 
+    def _truth(self, st, c, depth=0):
+        """Truth value of a condition in state st when the intervals decide it: True, False or None."""
+        f = self.f
+        j = ex.skip(f, c)
+        e = f.exprs[j]
+        if depth > 12:
+            return None
+        if "v" in e:
+            return bool(e["v"])
+        if ("fact", j, "T") in st:
+            return True
+        if ("fact", j, "F") in st:
+            return False
+        k = e["k"]
+        if k == "un" and e["op"] == "!":
+            t = self._truth(st, e["c"][0], depth + 1)
+            return None if t is None else (not t)
+        if k == "cast" and e["ck"] in ("IntegralToBoolean", "PointerToBoolean", "IntegralCast"):
+            return self._truth(st, e["c"][0], depth + 1)
+        if k == "bin" and e["op"] in ("&&", "||"):
+            a = self._truth(st, e["c"][0], depth + 1)
+            b = self._truth(st, e["c"][1], depth + 1)
+            if e["op"] == "&&":
+                if a is False or b is False:
+                    return False
+                return True if (a is True and b is True) else None
+            if a is True or b is True:
+                return True
+            return False if (a is False and b is False) else None
+        if k == "bin" and e["op"] in ("<", ">", "<=", ">=", "==", "!="):
+            r = _cmp_const(e["op"], self.eval(st, e["c"][0]), self.eval(st, e["c"][1]))
+            return None if r is None else bool(r)
+        return None
+
     def _known(self, st, c, truth):
         j = ex.skip(self.f, c)
         if ("fact", j, "T" if truth else "F") in st:
             return True
+        t = self._truth(st, c)
+        if t is not None:
+            return t == truth
         v = self.eval(st, j)
         if truth:
             return (v[0] is not None and v[0] > 0) or (v[1] is not None and v[1] < 0)
